@@ -65,16 +65,43 @@ def execute(payload):
         return guarded(lambda: [list(map(list, x)) if isinstance(x, list) else x for x in describe_model(model_description(payload["formula"]))])
     import numpy
 
-    ns = {"np": numpy, "kn": numpy.array(KN)}
+    from formulae.categorical import Sum
+
+    ns = {"np": numpy, "kn": numpy.array(KN), "enc": Sum()}
     if payload.get("extra"):
         ns["ext"] = EXT[payload["extra"]]
     config["EVAL_UNSEEN_CATEGORIES"] = payload.get("mode", "error")
     train = frames.build(payload["train"])
     if op == "build":
         return guarded(lambda: observe_design(design_matrices(payload["formula"], train, extra_namespace=ns)))
-    dm = design_matrices(payload["formula"], train, extra_namespace=ns)
+    try:
+        dm = design_matrices(payload["formula"], train, extra_namespace=ns)
+    except Exception as e:  # pylint: disable=broad-except
+        return {"exc": "build:" + type(e).__name__}
     new = frames.build(payload["frame"])
     part = dm.common if op == "eval_common" else dm.group
     if part is None:
         return {"ok": None, "warned": []}
     return guarded(lambda: observe_matrix(part.evaluate_new_data(new)))
+
+
+if __name__ == "__main__":
+    # python -m vf.fresh_tasks < payloads.json > results.json : the tasks of this module in a brand-new interpreter
+    # (used with several PYTHONHASHSEED values: a deterministic library gives the same answers under all of them)
+    import json
+    import sys
+    import warnings
+
+    warnings.simplefilter("ignore")
+    import contextlib
+    import io
+
+    payloads = json.load(sys.stdin)
+    out = []
+    with contextlib.redirect_stdout(io.StringIO()):  # the library prints diagnostics; the answer goes to the real stdout
+        for p_ in payloads:
+            try:
+                out.append(execute(p_))
+            except Exception as e:  # pylint: disable=broad-except
+                out.append({"exc": "task:" + type(e).__name__})
+    json.dump(out, sys.stdout)
